@@ -10,7 +10,7 @@ HEADER = "From Coq Require Import ZArith List.\nFrom TV Require Import Common.Ha
 CASE_T = "C12.Corr.case"
 PROPS = ["C12/Props.v"]
 CLAUSE = {1: "stale-read", 2: "getter-ran-twice", 3: "change-not-notified", 4: "event-announces-stale-value"}
-PNAMES = ["scalar", "child", "kids", "dict", "set", "nums", "nested", "kidchild", "multi", "chain", "mitems", "sitems"]
+PNAMES = ["scalar", "child", "kids", "dict", "set", "nums", "nested", "kidchild", "multi", "chain", "mitems", "sitems", "raw"]
 KEYS = ["ka", "kb", "kc"]
 
 
@@ -27,12 +27,18 @@ def kind_term(op, ob):
     return C("KMut", bool(ob["touched"]))
 
 
+EXPECTED_ERR = (None, "IndexError", "KeyError", "ValueError")      # of the container operation itself
+
+
 def to_term(case, obs):
     h = []
     for op, ob in zip(case["ops"], obs["hist"]):
+        # a step that raised anything else (e.g. NotifierNotFound out of a maintainer) is reported as a broken
+        # interface to the observer machinery: 100 deliveries (correspondence code 8)
+        d = ob["delivered"] + (0 if ob["err"] in EXPECTED_ERR else 100)
         h.append((kind_term(op, ob),
                   C("mkI", opt(ob["val"]), ob["oracle"], list(ob["view"]), Nat(ob["getter"]),
-                    [(opt(e[0]), e[1]) for e in ob["events"]], Nat(ob["delivered"]), opt(ob["cache"]))))
+                    [(opt(e[0]), e[1]) for e in ob["events"]], Nat(d), opt(ob["cache"]))))
     return C("mkCase", bool(case["cached"]), (list(obs["init_view"]), obs["init_oracle"]), h)
 
 
@@ -47,7 +53,8 @@ def shape(op):
 
 
 def key_fn(case, obs, step, clause):
-    return "%s/%s/%s/%s" % (CLAUSE.get(clause, clause), case["prop"], "cached" if case["cached"] else "uncached",
+    return "%s/%s/%s/%s" % (CLAUSE.get(clause, clause), case["prop"],
+                            ("cached-in-subclass" if case.get("sub") else "cached") if case["cached"] else "uncached",
                             shape(case["ops"][step]))
 
 
@@ -60,7 +67,7 @@ def describe(case, obs, step, clause):
 
 
 def nontrivial(case, obs):
-    sig = json.dumps([case["prop"], case["cached"], case.get("kwargs"), case["init"], case["ops"]], sort_keys=True)
+    sig = json.dumps([case["prop"], case["cached"], case.get("kwargs"), case.get("sub"), case["init"], case["ops"]], sort_keys=True)
     nt = any(o["delivered"] for o in obs["hist"])
     return sig, nt
 
@@ -69,7 +76,7 @@ def nontrivial(case, obs):
 RELEVANT = {  # traits whose mutation matters for each property (steers the generator only)
     "scalar": ["value"], "child": ["child", "value"], "kids": ["kids", "value"], "dict": ["m", "value"],
     "set": ["s", "value"], "nums": ["nums"], "nested": ["child", "kids", "value"],
-    "kidchild": ["kids", "child", "value"], "multi": ["value", "child", "nums"], "chain": ["value"], "mitems": ["m"], "sitems": ["s"],
+    "kidchild": ["kids", "child", "value"], "multi": ["value", "child", "nums"], "chain": ["value"], "mitems": ["m"], "sitems": ["s"], "raw": ["raw"],
 }
 
 
@@ -96,7 +103,7 @@ def gen_case(rnd, ctx, maxlen):
         if r < 0.34:
             op = ["Read"]
         elif r < 0.40:
-            op = ["Listen"]
+            op = ["Listen", rnd.choice(["observe", "observe", "on_trait_change"])]
             ls += 1
         elif r < 0.44 and ls > 0:
             op = ["Unlisten"]
@@ -111,6 +118,10 @@ def gen_case(rnd, ctx, maxlen):
             tr = rnd.choice(RELEVANT[pname] * 3 + ["other", "value", "child", "kids", "m", "s", "nums"])
             if tr in ("child", "kids", "m", "s") and not hi:
                 tr = "value"
+            if tr == "raw":
+                ops.append(["SetRaw", 0, rnd.randrange(8)])
+                ctx.count("op:SetRaw")
+                continue
             mode = rnd.random()
             if tr in ("value", "other"):
                 op = ["Set", i, tr, rnd.randint(0, 5)]
@@ -177,9 +188,11 @@ def gen_case(rnd, ctx, maxlen):
     ctx.count("property:" + pname)
     ctx.count("cached:%s" % cached)
     ctx.count("history-length:%02d" % len(ops))
+    sub = cached and rnd.random() < 0.2
+    ctx.count("subclass-overriding-getter-with-cached_property:%s" % sub)
     kw = rnd.random() < 0.3
     ctx.count("constructed-with-kwargs:%s" % kw)
-    return dict(prop=pname, cached=cached, n=n, init=init, ops=ops, kwargs=kw)
+    return dict(prop=pname, cached=cached, n=n, init=init, ops=ops, kwargs=kw, sub=sub)
 
 
 def corpus():
@@ -200,6 +213,27 @@ def corpus():
                            ops=[["Read"], mode, ["Read"], ["Read"], ["Set", 1, "value", 0], ["Read"], ["Listen"],
                                 ["DDel", 0, "m", "ka"], ["Set", 1, "value", 3], ["Read"], ["DDel", 0, "m", "kb"],
                                 ["Set", 1, "value", 1], ["Read"]]))
+    # the same item twice when the observers are hooked up (constructor / reassignment / copies), one copy
+    # removed, the other changed
+    dup = [{"value": 1, "child": 1, "kids": [1, 1], "m": [["ka", 1], ["kb", 1]], "s": [1], "nums": []},
+           {"value": 2, "child": None, "kids": [], "m": [], "s": [], "nums": []}]
+    for kw in (True, False):
+        for pre in ([], [["Copy", "pickle", 2]], [["Copy", "clone"]], [["Set", 0, "kids", [1, 1]]]):
+            cs.append(dict(prop="kids", cached=True, n=2, init=dup, kwargs=kw,
+                           ops=pre + [["Read"], ["Listen"], ["Set", 1, "value", 3], ["Read"], ["Pop", 0, "kids", 1],
+                                      ["Read"], ["Set", 1, "value", 5], ["Read"], ["Read"]]))
+        cs.append(dict(prop="dict", cached=True, n=2, init=dup, kwargs=kw,
+                       ops=[["Read"], ["Listen"], ["DDel", 0, "m", "kb"], ["Set", 1, "value", 4], ["Read"]]))
+    # identity comparison mode: equal but distinct values
+    for cached in (True, False):
+        cs.append(dict(prop="raw", cached=cached, n=2, init=dup,
+                       ops=[["Read"], ["Listen"], ["SetRaw", 0, 1], ["Read"], ["SetRaw", 0, 2], ["Read"], ["SetRaw", 0, 0],
+                            ["Read"], ["SetRaw", 0, 1], ["Read"], ["SetRaw", 0, 1], ["Read"], ["SetRaw", 0, 4], ["Read"]]))
+    # a subclass overriding only the getter of an inherited observed property with @cached_property
+    for pname in ("scalar", "kids", "multi"):
+        cs.append(dict(prop=pname, cached=True, sub=True, n=2, init=dup,
+                       ops=[["Read"], ["Set", 0, "value", 4], ["Read"], ["Set", 1, "value", 6], ["Read"], ["Listen"],
+                            ["Set", 0, "value", 5], ["Set", 1, "value", 7], ["Read"], ["Read"]]))
     return cs
 
 
